@@ -97,7 +97,8 @@ func (r *MMapReader) SeekNext(offset uint64) (uint64, []byte, error) {
 				}
 			}
 			if ix-i < len(MagicNumberSeparatorLongBytes) {
-				i = ix + 1
+				// the byte that broke a partial match may itself start the marker, so we only move on by one
+				i = i + 1
 				continue
 			}
 
